@@ -100,7 +100,7 @@ for _p in (0.2, 0.5):
         (f"overlap-bats-like/p={_p}", {"mandatory_services": _EXT, "optional_services": _ALL, "mandatory_sessions": [1, 2, 3], "p_service": _p}),
         (f"overlap-mandatory==optional/p={_p}", {"mandatory_services": _BOTH, "optional_services": _BOTH, "p_service": _p, "p_session": 0.1}),
     ]
-OVERLAP_ENVS = ("ref", "hash1", "all")
+OVERLAP_ENVS = (("0", "A", 0), ("1", "A", 0), ("random", "B", 1))  # (PYTHONHASHSEED, import order, clock)
 
 
 # ---------------------------------------------------------------------------
@@ -310,7 +310,7 @@ def items(tier: str, seed: int) -> list[tuple[Any, ...]]:
     n_overlap = 32 if tier == "quick" else 256
     for pname, params in OVERLAP_SETS:
         for env in envs:
-            if env[0] in OVERLAP_ENVS:
+            if tuple(env[1:4]) in OVERLAP_ENVS:
                 out.append((pname, params, list(range(n_overlap)), list(env), max_sessions, True))
     return out
 
@@ -436,7 +436,7 @@ def finish(merged: Any, tier: str) -> dict[str, Any]:
         raise Broken("vacuous: too few models / answers")
     return {
         "bound": {"seeds_default": n_default, "seeds_other_parameter_sets": n_other, "parameter_sets": [p for p, _ in PARAM_SETS], "environments": [e[0] for e in envs], "max_sessions": max_sessions,
-                  "model_only_parameter_sets": [p for p, _ in OVERLAP_SETS], "model_only_seeds": 32 if tier == "quick" else 256, "model_only_environments": list(OVERLAP_ENVS)},
+                  "model_only_parameter_sets": [p for p, _ in OVERLAP_SETS], "model_only_seeds": 32 if tier == "quick" else 256, "model_only_environments": [list(e) for e in OVERLAP_ENVS]},
         "transcript_pairs_compared": compared,
     }
 
